@@ -3,6 +3,7 @@ package main
 import (
 	"bytes"
 	"fmt"
+	"reflect"
 	"runtime"
 	"runtime/debug"
 	"strings"
@@ -30,6 +31,9 @@ type heldValue struct {
 	what string
 	live [][]byte
 	snap [][]byte
+	// typed slices (Int64Values, StringValues, …): the live value and its rendering when handed out
+	typed     interface{}
+	typedSnap string
 }
 
 func lastPayload(input []byte, tag int) ([]byte, bool) {
@@ -212,6 +216,41 @@ func poolHistory(c *fw.Ctx, steps int) {
 			if want, ok := refPathAnswer(hd.input, hd.def, []int{tag}, name); ok && want != got {
 				violate("pool/isolation/"+name, "a result exposed values that are not those of its own input", want, got)
 			}
+			// safe mode: typed slices handed out (root and nested results alike) must survive too
+			if !opt.fast && hd.res != nil && strings.HasPrefix(got, "ok") {
+				if fd, err := hd.res.FieldData(tag); err == nil {
+					var tv interface{}
+					switch r.Intn(6) {
+					case 0:
+						if v, err := fd.Int64Values(); err == nil {
+							tv = v
+						}
+					case 1:
+						if v, err := fd.UInt32Values(); err == nil {
+							tv = v
+						}
+					case 2:
+						if v, err := fd.BoolValues(); err == nil {
+							tv = v
+						}
+					case 3:
+						if v, err := fd.StringValues(); err == nil {
+							tv = v
+						}
+					case 4:
+						if v, err := fd.Float64Values(); err == nil {
+							tv = v
+						}
+					default:
+						if v, err := fd.Fixed32Values(); err == nil {
+							tv = v
+						}
+					}
+					if tv != nil && reflect.ValueOf(tv).Len() > 0 {
+						held = append(held, heldValue{what: fmt.Sprintf("%T values of tag %d of handle %d (nested=%v)", tv, tag, h, hd.nested), typed: tv, typedSnap: fmt.Sprint(tv)})
+					}
+				}
+			}
 			// safe mode: remember handed-out byte slices to check they survive Close and later decodes
 			if !opt.fast && hd.res != nil && (name == "Bytess" || name == "Bytes") && strings.HasPrefix(got, "ok") {
 				if fd, err := hd.res.FieldData(tag); err == nil {
@@ -386,6 +425,9 @@ func poolHistory(c *fw.Ctx, steps int) {
 		}
 	}
 	for _, hv := range held {
+		if hv.typed != nil && fmt.Sprint(hv.typed) != hv.typedSnap {
+			violate("pool/safe-mode-survival", "a typed slice handed out in safe mode changed after Close / later decodes: "+hv.what, hv.typedSnap, fmt.Sprint(hv.typed))
+		}
 		for i := range hv.live {
 			if !bytes.Equal(hv.live[i], hv.snap[i]) {
 				violate("pool/safe-mode-survival", "a value handed out in safe mode changed after Close / later decodes: "+hv.what, hexs(hv.snap[i]), hexs(hv.live[i]))
